@@ -1,7 +1,13 @@
 package mon
 
 import (
+	"bytes"
+	"encoding/json"
 	"fmt"
+	"os"
+	"os/exec"
+	"path/filepath"
+	"runtime/debug"
 	"strings"
 	"sync/atomic"
 
@@ -255,6 +261,11 @@ func runC12(r *Run) int {
 		}
 	})
 	r.Phase("hostile inputs")
+	// B'. the long inputs once more in a child process whose goroutine stacks are limited to 16 MiB: a decoder
+	// whose stack depth grows with the number of elements (or characters) of its input dies there with a fatal,
+	// unrecoverable stack overflow long before the default 1 GB limit is reached.
+	c12SmallStackChild(r)
+	r.Phase("long inputs under a small stack limit (child process)")
 	// C. observer sweep on nil receivers and fresh constructor results
 	w := r.NewW()
 	for k := lib.Kind(0); k < lib.NKinds; k++ {
@@ -488,6 +499,10 @@ func runC12(r *Run) int {
 func replayC12(r *Run, c Case) {
 	w := r.NewW()
 	defer w.Merge()
+	if c.Type == "long-input" {
+		c12SmallStackChild(r)
+		return
+	}
 	k := kindByName(c.Kind)
 	if c.Type == "receiver" {
 		sweep(w, lib.NilObj(k), c, "a nil receiver", true)
@@ -543,4 +558,88 @@ func replayC12(r *Run, c Case) {
 		}
 		sweep(w, o, c, fmt.Sprintf("a decoded object whose exported field #%d was reset", f), must)
 	}
+}
+
+// c12child: decodes the long hostile inputs at all six decoders under debug.SetMaxStack(16 MiB).  Every
+// decode is announced on stdout before it starts, so that the parent can name the input a fatal error struck.
+func init() {
+	internals["c12child"] = func(args []string, seed int64, dir string) int {
+		debug.SetMaxStack(16 << 20)
+		r := NewRun("C12", "quick", seed, dir)
+		r.Child = true
+		w := r.NewW()
+		n := 0
+		for _, v2 := range []bool{false, true} {
+			for hi, s := range c12LongInputs(v2) {
+				for level := 0; level < 3; level++ {
+					k := kindOf(v2, level)
+					if (hi+level)%2 == 0 || level == 2 {
+						fmt.Printf("DECODING %s input#%d len=%d head=%q\n", k, hi, len(s), clip(s, 60))
+						recv := lib.New(k)
+						decodeShape(w, k, s, (hi+level)%3 == 0, recv, false)
+						n++
+					}
+				}
+			}
+		}
+		w.Merge()
+		fmt.Printf("CHILD-DONE evaluations=%d\n", n)
+		return 0
+	}
+}
+
+func c12LongInputs(v2 bool) []string {
+	rep := strings.Repeat
+	in := hostileLong(v2, 1)
+	p, valid := "CVSS:3.1/", "AV:N/AC:L/PR:N/UI:N/S:U/C:H/I:H/A:H"
+	if v2 {
+		p, valid = "", "AV:N/AC:L/Au:N/C:P/I:P/A:P"
+	}
+	return append(in, p+valid+rep("/X:1", 300000), p+rep("X:1/", 300000)+valid, p+valid+"/"+rep("Q", 1<<20)+":1", p+valid+"/X:"+rep("1", 1<<20), p+valid+rep("/é:é", 200000),
+		p+rep(":", 1<<20), p+valid+rep("\x00", 1<<20), rep("/", 1<<20))
+}
+
+func c12SmallStackChild(r *Run) {
+	if r.Child {
+		return
+	}
+	cmd := exec.Command(childBinary(), "c12child")
+	cmd.Env = os.Environ()
+	var stderr bytes.Buffer
+	cmd.Stderr = &stderr
+	out, err := cmd.Output()
+	last, done := "", false
+	for _, line := range strings.Split(string(out), "\n") {
+		switch {
+		case strings.HasPrefix(line, "CHILD-VIOLATION "):
+			var v Violation
+			if json.Unmarshal([]byte(line[len("CHILD-VIOLATION "):]), &v) == nil {
+				if v.Case.Args == nil {
+					v.Case.Args = map[string]string{}
+				}
+				v.Case.Args["child_process"] = "goroutine stacks limited to 16 MiB"
+				r.Violate(v)
+			}
+		case strings.HasPrefix(line, "DECODING "):
+			last = line
+		case strings.HasPrefix(line, "CHILD-DONE"):
+			done = true
+			var n int64
+			fmt.Sscanf(line, "CHILD-DONE evaluations=%d", &n)
+			r.AddEvals(n)
+			r.Count("long_inputs_decoded_under_a_16MiB_stack_limit", n)
+		}
+	}
+	if err == nil && done {
+		return
+	}
+	es := stderr.String()
+	if strings.Contains(es, "stack overflow") || strings.Contains(es, "stack exceeds") {
+		os.WriteFile(filepath.Join(r.OutDir, "crash-small-stack.log"), []byte(clip(es, 20000)), 0o644)
+		c := Case{Type: "long-input", Args: map[string]string{"child_process": "goroutine stacks limited to 16 MiB (debug.SetMaxStack)", "last_announced": last}}
+		r.Violate(Violation{Monitor: "C12", Check: "Decode returns for any length of input: its stack depth does not grow with the input (fatal stack overflow under a 16 MiB stack limit)", Case: c,
+			Observed: clip(es, 400), Note: "re-run: mon c12child"})
+		return
+	}
+	r.Inconclusive("small-stack child did not complete: %v; last: %s; stderr: %s", err, last, clip(es, 400))
 }
